@@ -275,6 +275,11 @@ def auto_harness(u, job):
         lines.append('  vf_havoc_ghosts();')
     lines.append('  %s(%s);' % (fn, ', '.join(args)))
     lines.append('  __CPROVER_assert(0, "VF_VACUITY_TWIN function returns under its precondition (must fail)");')
+    # reachability covers: each expression (over entry values the function does not change) must be satisfiable together with the
+    # precondition on a path where the function returns -- guards against preconditions / ghost setups that silently collapse a
+    # domain (e.g. a list length forced to 0).  Like the twin, each of these assertions must FAIL.
+    for k, c in enumerate(job.get('covers', ())):
+        lines.append('  __CPROVER_assert(!(%s), "VF_COVER %d: the function returns with (%s) (must fail)");' % (c, k, c.replace('"', "'")))
     lines.append('}')
     return '\n'.join(lines)
 
@@ -407,6 +412,7 @@ def run_job(G, u, gen, bdir, job, tier):
     out_props = []
     twin_seen = False
     twin_failed = False
+    covers_missed = []
     other_harnesses = set(j.get('harness') for j in G['jobs'] if j.get('harness')) - {harness}
     for p in props:
         desc = p.get('description', '')
@@ -420,7 +426,11 @@ def run_job(G, u, gen, bdir, job, tier):
             twin_seen = True
             twin_failed = (st == 'FAILURE')
             item['twin'] = True
-        if st == 'FAILURE' and 'trace' in p and 'VF_VACUITY_TWIN' not in desc:
+        if 'VF_COVER' in desc:
+            item['twin'] = True
+            if st != 'FAILURE':
+                covers_missed.append(desc)
+        if st == 'FAILURE' and 'trace' in p and 'VF_VACUITY_TWIN' not in desc and 'VF_COVER' not in desc:
             item['inputs'] = extract_inputs(p['trace'], harness)
             item['trace_len'] = len(p['trace'])
         # text of the clause for readable obligation names
@@ -474,6 +484,11 @@ def run_job(G, u, gen, bdir, job, tier):
         res['reason'] = 'vacuous: the function cannot return under its precondition (twin assertion did not fail)'
         res['status'] = 'vacuous'
         return res
+    if covers_missed:
+        res['reason'] = 'vacuous in part: a cover is unreachable under the precondition: %s' % ' | '.join(covers_missed)[:600]
+        res['status'] = 'vacuous'
+        return res
+    res['covers'] = len(job.get('covers', ()))
     res['status'] = 'passed'
     return res
 
